@@ -30,6 +30,21 @@ def fval(x):
     return _dbl(Fraction(x))
 
 
+def fl(x):
+    """Coq term of type fl (Model/Float.v) for a Python number: FD mantissa exponent, or FBad for nan / inf / -0.0"""
+    if isinstance(x, bool):
+        x = int(x)
+    if not isinstance(x, int):
+        x = float(x)
+        if math.isnan(x) or math.isinf(x) or (x == 0 and math.copysign(1.0, x) < 0):
+            return 'FBad'
+    f = Fraction(x)
+    m, e = f.numerator, -(f.denominator.bit_length() - 1)
+    while m and m % 2 == 0 and e < 0:
+        m, e = m // 2, e + 1
+    return f'(FD {"(-0x%x)" % -m if m < 0 else "0x%x" % m} {"(%d)" % e if e < 0 else e})'
+
+
 def parse_spec(spec):
     """'10.2f' -> (kind, width, prec);  kind in F Fc E Eu G.  None if the spec is outside the model."""
     m = SPEC_RE.match(spec)
@@ -153,3 +168,47 @@ def kernel_bools(ctx, name, requires, terms, shard=300):
         return f'let l := [\n {items}] in (List.length l, mismatches (fun b : bool => b) 0 l)'
 
     return fw.kernel_eval(ctx, name, ['Base.Flat'] + list(requires), body, len(terms), shard, None)
+
+
+def kernel_groups(ctx, name, requires, groups, shard_bytes=300_000):
+    """groups: [(prefix, [bool terms])] - prefix is a chain of `let x := .. in` shared by the terms of the group.
+    Evaluates everything in the kernel (sharded by size, 16 coqc in parallel); returns the set of (group, term) that are false."""
+    import contextlib
+    import re
+    from concurrent.futures import ThreadPoolExecutor
+    from . import framework as fw
+    shards, cur, size = [], [], 0
+    for gi, (prefix, terms) in enumerate(groups):
+        if not terms:
+            continue
+        sz = len(prefix) + sum(len(x) for x in terms)
+        if cur and size + sz > shard_bytes:
+            shards.append(cur)
+            cur, size = [], 0
+        cur.append(gi)
+        size += sz
+    if cur:
+        shards.append(cur)
+    jobs = []
+    for k, gis in enumerate(shards):
+        parts = ['(' + groups[gi][0] + '[\n ' + ';\n '.join(groups[gi][1]) + '])' for gi in gis]
+        text = fw.HEADER + ''.join(f'From Verif Require Import {r}.\n' for r in ['Base.Flat'] + list(requires))
+        text += 'Eval vm_compute in (let l := (' + '\n ++ '.join(parts) + ')%list in (List.length l, mismatches (fun b : bool => b) 0 l)).\n'
+        path = ctx.scratch / ('cases_' + re.sub(r'[^A-Za-z0-9_]', '_', name) + f'_{k}.v')
+        path.write_text(text)
+        jobs.append((gis, path))
+    with ThreadPoolExecutor(max_workers=16) as ex:
+        results = list(ex.map(lambda j: fw._run_shard(j[1]), jobs))
+    bad = set()
+    for (gis, path), (rc, out, err) in zip(jobs, results):
+        if rc != 0:
+            raise RuntimeError(f'coqc failed on {path.name}: {(out + err)[-1500:]}')
+        parsed = fw.parse_mismatch_output(out)
+        flat = [(gi, ti) for gi in gis for ti in range(len(groups[gi][1]))]
+        if parsed is None or parsed[0] != len(flat):
+            raise RuntimeError(f'{path.name}: unexpected kernel output {out[-300:]}')
+        bad |= {flat[i] for i in parsed[1]}
+        for ext in ('.v', '.vo', '.glob', '.vok', '.vos'):
+            with contextlib.suppress(OSError):
+                path.with_suffix(ext).unlink()
+    return bad
